@@ -36,6 +36,11 @@ type c07Spec struct {
 	HasOp    bool
 	CloseErr bool     // the transport's Close() returns an error (sim.CloseErr)
 	Net      bool     // (NC false) network driver instead of generic driver
+	PreOpen  bool     // forced schedules: Close before Open (the read loops are never started)
+	Api      string   // non-empty: API scenario (c07_api.go), natural timing
+	Plat     bool     // (NC false) network driver built by the platform factory (cisco_iosxe)
+	Slow     bool     // the transport's Close takes 30 ms
+	Jit      int      // != 0: random perturbation at the yield points, seeded with this
 	Alive    int      // IsAlive(): 0 alive until closed locally, 1 false once a Read returned EOF/error, 2 also false as soon as the peer hung up (sim.PeerAlive)
 	Natural  string   // non-empty: natural-timing scenario name, no schedule control
 	Sched    []string // tokens R K O N W S Ed Ee Ex
@@ -56,7 +61,10 @@ func (s c07Spec) String() string {
 	if nat == "" {
 		nat = "-"
 	}
-	return fmt.Sprintf("nc=%s net=%s mode=%d twice=%s op=%s cerr=%s alive=%d nat=%s sched=%s", b(s.NC), b(s.Net), s.Mode, b(s.Twice), b(s.HasOp), b(s.CloseErr), s.Alive, nat, sch)
+	if s.Api != "" {
+		return fmt.Sprintf("api=%s nc=%s net=%s plat=%s mode=%d twice=%s cerr=%s slow=%s alive=%d jit=%d", s.Api, b(s.NC), b(s.Net), b(s.Plat), s.Mode, b(s.Twice), b(s.CloseErr), b(s.Slow), s.Alive, s.Jit)
+	}
+	return fmt.Sprintf("nc=%s net=%s pre=%s mode=%d twice=%s op=%s cerr=%s alive=%d nat=%s sched=%s", b(s.NC), b(s.Net), b(s.PreOpen), s.Mode, b(s.Twice), b(s.HasOp), b(s.CloseErr), s.Alive, nat, sch)
 }
 
 func parseC07Spec(line string) (c07Spec, error) {
@@ -79,6 +87,16 @@ func parseC07Spec(line string) (c07Spec, error) {
 			s.CloseErr = kv[1] == "1"
 		case "net":
 			s.Net = kv[1] == "1"
+		case "api":
+			s.Api = kv[1]
+		case "pre":
+			s.PreOpen = kv[1] == "1"
+		case "plat":
+			s.Plat = kv[1] == "1"
+		case "slow":
+			s.Slow = kv[1] == "1"
+		case "jit":
+			s.Jit, _ = strconv.Atoi(kv[1])
 		case "alive":
 			s.Alive, _ = strconv.Atoi(kv[1])
 		case "nat":
@@ -106,6 +124,11 @@ type c07Final struct {
 	CloseRet    []bool            `json:"close_returned"`
 	CloseErr    []string          `json:"close_err"`
 	CallsAtRet  []int             `json:"impl_close_calls_when_close_returned"`
+	Api         string            `json:"api,omitempty"`
+	ApiNotes    []string          `json:"api_notes,omitempty"`
+	OpenErr     string            `json:"open_err,omitempty"`
+	Opened      bool              `json:"opened"`
+	OpenCalls   int               `json:"open_calls"`
 	CloseCalls  int               `json:"close_calls"`
 	Alive       []string          `json:"alive"`
 	OpStarted   bool              `json:"op_started"`
@@ -292,6 +315,10 @@ func (c *c07Ctl) release(p *c07Proc) {
 
 func runC07Child(line string) {
 	spec, _ := parseC07Spec(line)
+	if spec.Api != "" {
+		runC07Api(spec)
+		return
+	}
 	ctl := &c07Ctl{nc: spec.NC, procs: map[string]*c07Proc{}, events: make(chan c07Ev, 4096)}
 	hooked := c07InstallHook(ctl.yield)
 	fin := c07Final{Init: map[string]string{}}
@@ -327,9 +354,11 @@ func runC07Child(line string) {
 			fmt.Println("SETUP-ERROR", err)
 			os.Exit(5)
 		}
-		if err := d.Open(); err != nil {
-			fmt.Println("SETUP-ERROR open", err)
-			os.Exit(5)
+		if !spec.PreOpen {
+			if err := d.Open(); err != nil {
+				fmt.Println("SETUP-ERROR open", err)
+				os.Exit(5)
+			}
 		}
 		pipe = s.Pipe
 		closeFn = d.Close
@@ -369,9 +398,11 @@ func runC07Child(line string) {
 			}
 			d, openFn, closeFn = gd, gd.Open, gd.Close
 		}
-		if err := openFn(); err != nil {
-			fmt.Println("SETUP-ERROR open", err)
-			os.Exit(5)
+		if !spec.PreOpen {
+			if err := openFn(); err != nil {
+				fmt.Println("SETUP-ERROR open", err)
+				os.Exit(5)
+			}
 		}
 		pipe = dev.Pipe
 		opFn = func() {
@@ -485,9 +516,22 @@ func runC07Child(line string) {
 		ctl.controlled.Store(true)
 		// initial positions: whoever loops parks at its next yield point; the read loop is inside
 		// the transport read and does not show up
-		time.Sleep(5 * time.Millisecond)
+		// (decided from its stack, not from a delay: either it has parked at a yield point or its
+		// goroutine is inside the simulator's Read)
+		for i := 0; i < 2000 && !spec.PreOpen; i++ {
+			time.Sleep(time.Millisecond)
+			ctl.pump()
+			if p := ctl.get("R"); (p != nil && p.at != "") || (p == nil && c07ReaderInRead(c07Stacks())) {
+				break
+			}
+		}
 		ctl.pump()
-		if ctl.get("R") == nil {
+		if spec.PreOpen {
+			ctl.mu.Lock()
+			ctl.procs["R"] = &c07Proc{role: "R", state: "dead", release: make(chan struct{}, 1)}
+			ctl.mu.Unlock()
+			fin.Init["R"] = "never"
+		} else if ctl.get("R") == nil {
 			ctl.mu.Lock()
 			ctl.procs["R"] = &c07Proc{role: "R", state: "blocked", release: make(chan struct{}, 1)}
 			ctl.mu.Unlock()
@@ -495,12 +539,20 @@ func runC07Child(line string) {
 		} else {
 			fin.Init["R"] = ctl.get("R").at
 		}
-		if spec.NC {
-			for i := 0; i < 1000 && ctl.get("N") == nil; i++ {
+		if spec.NC && spec.PreOpen {
+			ctl.mu.Lock()
+			ctl.procs["N"] = &c07Proc{role: "N", state: "dead", release: make(chan struct{}, 1)}
+			ctl.mu.Unlock()
+			fin.Init["N"] = "dead"
+		} else if spec.NC {
+			for i := 0; i < 2000; i++ {
+				if p := ctl.get("N"); p != nil && p.at != "" {
+					break
+				}
 				time.Sleep(time.Millisecond)
 				ctl.pump()
 			}
-			if p := ctl.get("N"); p != nil {
+			if p := ctl.get("N"); p != nil && p.at != "" {
 				fin.Init["N"] = p.at
 			} else {
 				fmt.Println("SETUP-ERROR the NETCONF read loop never reached a yield point")
@@ -665,6 +717,16 @@ func runC07Child(line string) {
 	b, _ := json.Marshal(fin)
 	fmt.Println("FINAL " + string(b))
 	os.Exit(0)
+}
+
+// c07ReaderInRead: the channel read loop's goroutine is inside the simulator's Read.
+func c07ReaderInRead(dump string) bool {
+	for _, g := range strings.Split(dump, "\n\n") {
+		if strings.Contains(g, c07RoleFunc["R"]) && strings.Contains(g, "sim.(*Pipe).Read(") {
+			return true
+		}
+	}
+	return false
 }
 
 var c07FuncRe = regexp.MustCompile(`(?m)^(github\.com/scrapli/scrapligo/[^\s(]+(?:\([^)]*\))?[^\s(]*)\(`)
